@@ -148,7 +148,9 @@ def inputs_evaluated_before_open(ctx, idx, rule, d, why):
         if q not in ("open", "Dataset", "File"):
             return False
         mode = c.args[1] if len(c.args) > 1 else next((k.value for k in c.keywords if k.arg == "mode"), None)
-        return isinstance(mode, ast.Constant) and isinstance(mode.value, str) and mode.value[:1] in ("w", "a", "x")
+        # "w" truncates what is there; "a" and "x" leave existing content alone (a probe for writability opened for appending
+        # and closed again destroys nothing)
+        return isinstance(mode, ast.Constant) and isinstance(mode.value, str) and mode.value[:1] == "w"
 
     opens = [n for n in cfg.find("call") if opens_for_write(n.ast)]
     if not opens:
